@@ -11,6 +11,11 @@ For every signature of the universe (with annotations and defaults):
  (e) read_sig / func_code against the token-level model;
  (c') bind_callsig / sort_callsigs with the positional arguments held in a list, range, UserList,
      array or tuple subclass: the mapping of the real call (surplus in a tuple);
+ (c'') calls whose argument VALUES are falsy (0, None, '', (), [], False, 0.0, objects with __bool__ False /
+     __len__ 0), equal but distinct, or containers -- in the slots, in the surplus beyond the positional
+     slots, as keyword values: bind_callsig / sort_callsigs vs the real call and vs the model (values interned);
+ (a') two and three future features in every order (annotations first / in the middle / last / absent):
+     postponed exactly when 'annotations' is named, s and f alike;
  (h) annotation / default / return annotation texts that are names of the caller's globals=
      namespace, including names the helpers use themselves (`modifiers`, `func`, ...).
 """
@@ -265,12 +270,13 @@ def decide_bind_container(ps, args, kwargs, cname, sig=None, fn=None, impl_tuple
     return None
 
 
-def decide_sort_container(ps, calls, cname, sig=None, fn=None):
+def decide_sort_container(ps, calls, cname, sig=None, fn=None, flags_out=None):
     """sort_callsigs on call shapes whose positional arguments are held in a container:
-    the same partition, and every bound mapping equal to the real return value."""
+    the same partition, and every bound mapping equal to the real return value.
+    (cname 'tuple': a plain tuple; flags_out receives, per call, whether it was listed as valid.)"""
     sig = sig or expected_sig(ps)
     fn = fn or real_def(ps)
-    mk = CONTAINERS[cname]
+    mk = tuple if cname == 'tuple' else CONTAINERS[cname]
     callsigs = [(mk(a), dict(k)) for a, k in calls]
     try:
         with warnings.catch_warnings():
@@ -290,6 +296,8 @@ def decide_sort_container(ps, calls, cname, sig=None, fn=None):
             ii += 1
         else:
             return 'sort_callsigs(%s, ...) lost or reordered the call (%r, %r)' % (show(ps), cs[0], cs[1])
+        if flags_out is not None:
+            flags_out.append(in_valid)
         if collision(ps, kwargs):
             continue
         if in_valid != (real[0] == 'ok') or (in_valid and (
@@ -496,6 +504,233 @@ def check_binder(ctx, rep, sigs):
     return ncalls
 
 
+# ---------------------------------------------------------------- (c'') argument VALUES
+# The binder must not look at the values it is given: a call is accepted, and its arguments
+# mapped, by position and keyword only.  Calls whose argument values are falsy (0, None, '',
+# (), [], False, 0.0, {}, an object with __bool__ False / __len__ 0 ...), equal to each other
+# although distinct (0 == False == 0.0 == 0j), or containers themselves -- at every position:
+# a parameter's slot, the surplus beyond the positional slots (with and without *args), a
+# keyword's value, a **kwargs entry.  Decided by really calling the def; the model (whose
+# values are interned numbers) is run on the same calls with every value interned.
+class Falsy(object):
+    def __bool__(self):
+        return False
+
+    def __repr__(self):
+        return '<falsy object>'
+
+
+class Empty(object):
+    def __len__(self):
+        return 0
+
+    def __repr__(self):
+        return '<object of length 0>'
+
+
+# (factory, falsy?)  -- code of value i is 500 + i; ints are their own code
+VALUE_TABLE = [
+    (lambda: None, True), (lambda: '', True), (lambda: (), True), (lambda: [], True), (lambda: False, True),
+    (lambda: 0.0, True), (lambda: {}, True), (lambda: frozenset(), True), (lambda: b'', True), (lambda: 0j, True),
+    (lambda: range(0), True), (Falsy, True), (Empty, True), (lambda: -0.0, True),
+    (lambda: 'x', False), (lambda: (0,), False), (lambda: True, False), (lambda: [None], False),
+    (lambda: 0.5, False), (lambda: ((),), False), (lambda: {'a': 0}, False),
+]
+VALUE_KEYS = {}
+for _i, (_mk, _falsy) in enumerate(VALUE_TABLE):
+    _v = _mk()
+    assert bool(_v) != _falsy
+    VALUE_KEYS[(type(_v).__name__, repr(_v))] = 500 + _i
+FALSY_CODES = [0] + [500 + i for i, (_mk, fa) in enumerate(VALUE_TABLE) if fa]
+TRUTHY_CODES = [500 + i for i, (_mk, fa) in enumerate(VALUE_TABLE) if not fa]
+
+
+def vcode(v):
+    if type(v) is int:
+        return v
+    return VALUE_KEYS.get((type(v).__name__, repr(v)), 999999)
+
+
+def vdecode(c):
+    return VALUE_TABLE[c - 500][0]() if 500 <= c < 500 + len(VALUE_TABLE) else c
+
+
+def conv_asg(ps, d):
+    """a returned mapping with every value interned (type-aware: 0, False and 0.0 differ)"""
+    kinds = {nname(p[0]): p[1] for p in ps}
+    out = {}
+    for k, v in d.items():
+        kind = kinds.get(k)
+        if kind == 'VP' and type(v) is tuple:
+            out[k] = tuple(vcode(x) for x in v)
+        elif kind == 'VK' and type(v) is dict:
+            out[k] = {kk: vcode(x) for kk, x in v.items()}
+        else:
+            out[k] = vcode(v)
+    return out
+
+
+def decide_bind_values(ps, acodes, kcodes, sig=None, fn=None):
+    """bind_callsig vs really calling the def, on a call given by value codes.
+    Returns (impl, real, what|None) with the mappings interned (for the model)."""
+    sig = sig or expected_sig(ps)
+    fn = fn or real_def(ps)
+    args = [vdecode(c) for c in acodes]
+    kwargs = [(k, vdecode(c)) for k, c in kcodes]
+    impl = impl_bind(sig, args, kwargs)
+    real = real_call(fn, args, kwargs)
+    impl_c = ('ok', conv_asg(ps, impl[1])) if impl[0] == 'ok' else impl
+    real_c = ('ok', conv_asg(ps, real[1])) if real[0] == 'ok' else real
+    what = None
+    if not collision(ps, kwargs):
+        call = '(*%r, **%r)' % (args, dict(kwargs))
+        if impl[0] != real[0]:
+            what = ('bind_callsig(%s, %s) %s but really calling def func%s%s %s'
+                    % (show(ps), call,
+                       'returned %r' % (impl[1],) if impl[0] == 'ok' else 'raised TypeError(%s)' % impl[2],
+                       show(ps), call,
+                       'returned %r' % (real[1],) if real[0] == 'ok' else 'raised TypeError(%s)' % real[1]))
+        elif impl[0] == 'ok' and (impl[1] != real[1] or impl_c[1] != real_c[1]):
+            what = ('bind_callsig(%s, %s) returned %r but the real call returned %r'
+                    % (show(ps), call, impl[1], real[1]))
+    return impl_c, real_c, what
+
+
+def gen_value_calls(ps, rng, per_n):
+    """calls as (argument codes, [(keyword, code)]): every positional count up to three beyond
+    the positional slots; the surplus / the slots / the keyword values falsy, mixed, random"""
+    pos = [p for p in ps if p[1] in ('PO', 'PK')]
+    npos = len(pos)
+    names = [nname(p[0]) for p in ps] + [FOREIGN]
+    required_ko = [nname(p[0]) for p in ps if p[1] == 'KO' and p[2] is None]
+    pool = FALSY_CODES + TRUTHY_CODES + [101, 102]
+
+    def fa():
+        return rng.choice(FALSY_CODES)
+    calls = []
+    for n in range(npos + 4):
+        k = max(0, n - npos)        # surplus
+        variants = []
+        head = [101 + i for i in range(min(n, npos))]
+        one = fa()
+        variants.append(head + [one] * k)                                   # the same falsy value in every surplus place
+        variants.append(head + [fa() for _ in range(k)])                    # different falsy values
+        variants.append([fa() for _ in range(n)])                           # everything falsy
+        variants.append([rng.choice(pool) for _ in range(n)])               # anything
+        if k >= 2:
+            variants.append(head + [fa() for _ in range(k - 1)] + [rng.choice(TRUTHY_CODES)])
+            variants.append(head + [rng.choice(TRUTHY_CODES)] + [fa() for _ in range(k - 1)])
+        if n and npos:
+            v = list(head) + [fa() for _ in range(k)]
+            v[rng.randrange(min(n, npos))] = fa()                           # one slot falsy
+            variants.append(v)
+        seen = set()
+        variants = [v for v in variants if not (tuple(v) in seen or seen.add(tuple(v)))]
+        if len(variants) > per_n:
+            variants = variants[:2] + rng.sample(variants[2:], per_n - 2)
+        for args in variants:
+            free = [nm for nm in names[:-1] if nm not in [nname(p[0]) for p in pos[:n]]]
+            kwsets = [[], list(required_ko)]
+            kwsets.append([nm for nm in names if rng.random() < 0.4])
+            kwsets.append([nm for nm in free if rng.random() < 0.7] + ([FOREIGN] if rng.random() < 0.3 else []))
+            seen_k = set()
+            for ks in kwsets:
+                if tuple(ks) in seen_k:
+                    continue
+                seen_k.add(tuple(ks))
+                mode = rng.randrange(3)
+                calls.append((args, [(nm, fa() if mode == 0 else rng.choice(pool) if mode == 1 else 201 + j)
+                                     for j, nm in enumerate(ks)]))
+    return calls
+
+
+def check_values(ctx, rep, sigs):
+    rng = ctx.rng('values')
+    groups = []
+    ncalls = nsurplus = nsurplus_falsy = nfalsy_kw = 0
+    used = {}
+    for gi, ps in enumerate(sigs):
+        sig = expected_sig(ps)
+        fn = real_def(ps)
+        calls = gen_value_calls(ps, rng, 3 if ctx.quick else 7)
+        npos = sum(1 for p in ps if p[1] in ('PO', 'PK'))
+        cases = []
+        for acodes, kcodes in calls:
+            impl_c, real_c, what = decide_bind_values(ps, acodes, kcodes, sig, fn)
+            ncalls += 1
+            if len(acodes) > npos:
+                nsurplus += 1
+                nsurplus_falsy += all(c in FALSY_CODES for c in acodes[npos:])
+            nfalsy_kw += any(c in FALSY_CODES for _, c in kcodes)
+            for c in acodes:
+                used[c] = used.get(c, 0) + 1
+            rdata = {'sig': ps, 'args': acodes, 'kwargs': kcodes}
+            if what:
+                rep.violation('C20:bind', what, dict(rdata, kind='bind-values'))
+            cname = ('list', 'tuple-subclass', 'userlist')[ncalls % 3]
+            w2 = decide_bind_container(ps, [vdecode(c) for c in acodes], [(k, vdecode(c)) for k, c in kcodes], cname, sig, fn)
+            if w2:
+                rep.violation('C20:bind', w2, dict(rdata, kind='bind-values-container', container=cname))
+            cases.append([acodes, kcodes, impl_c, real_c, None])
+            rep.distinct.add(('bind-values', tuple(ps), tuple(acodes), tuple(kcodes)))
+        # sort_callsigs on the same calls: the same partition, the real mappings
+        flags = []
+        for cname in ('tuple', ('list', 'tuple-subclass', 'userlist')[gi % 3]):
+            fl = []
+            w3 = decide_sort_container(ps, [([vdecode(c) for c in a], [(k, vdecode(c)) for k, c in kw]) for a, kw in calls],
+                                       cname, sig, fn, fl)
+            if w3:
+                rep.violation('C20:sort', w3, {'kind': 'sort-values', 'sig': ps, 'calls': calls, 'container': cname})
+            if cname == 'tuple':
+                flags = fl
+        if len(flags) == len(cases):
+            for c, f in zip(cases, flags):
+                c[4] = f
+        else:       # sort_callsigs failed as a whole (reported above): the model's partition is the reference
+            for c in cases:
+                c[4] = c[2][0] == 'ok'
+        groups.append((ps, [tuple(c) for c in cases]))
+    shards = []
+    cur, n = [], 0
+    for g in groups:
+        cur.append(g)
+        n += len(g[1])
+        if n >= 500:
+            shards.append(cur)
+            cur, n = [], 0
+    if cur:
+        shards.append(cur)
+    with ThreadPoolExecutor(14) as ex:
+        results = list(ex.map(coq_bind_shard, shards))
+    for shard, res in zip(shards, results):
+        for rel, lst in res.items():
+            for si, ci in lst:
+                ps, cases = shard[si]
+                acodes, kcodes, impl_c, real_c, flag = cases[ci]
+                inp = {'sig': show(ps), 'args': [vdecode(c) for c in acodes], 'kwargs': [(k, vdecode(c)) for k, c in kcodes],
+                       'values': 'interned'}
+                if rel == 'bind_callsig':
+                    rep.corr_break('bind_callsig model vs implementation (falsy / container argument values)', inp,
+                                   'differs', str(impl_c[:2]))
+                elif rel == 'sort_callsigs':
+                    rep.corr_break('sort_callsigs model vs implementation (falsy / container argument values)',
+                                   {'sig': show(ps)}, 'differs', 'partition')
+                elif rel == 'bindv-vs-real-call':
+                    rep.corr_break('bindv (CPython binder model) vs a real call (falsy / container argument values)', inp,
+                                   'differs', str(real_c))
+                elif rel == 'bindv-vs-accepts':
+                    rep.corr_break('bindv succeeds iff accepts', inp, 'differs', '')
+                else:
+                    rep.corr_break('C20_bind statement evaluated in the model', inp, 'false', '')
+    rep.coverage['value_calls'] = ncalls
+    rep.coverage['value_calls_with_surplus_positionals'] = nsurplus
+    rep.coverage['value_calls_with_all_surplus_falsy'] = nsurplus_falsy
+    rep.coverage['value_calls_with_a_falsy_keyword_value'] = nfalsy_kw
+    rep.coverage['value_calls_positional_values_used'] = {repr(vdecode(c)): v for c, v in sorted(used.items())}
+    rep.coverage['value_coq_shards'] = len(shards)
+    return ncalls
+
+
 # ---------------------------------------------------------------- (d) make_up_callsigs
 def brute_callsigs(ps, extra):
     named = [nname(p[0]) for k in ('PO', 'PK', 'KO') for p in ps if p[1] == k]
@@ -596,21 +831,25 @@ def full_calls(ps):
     return calls
 
 
-def decide_roundtrip(ps, ret, opts, postponed):
-    """Returns a list of (key, what)."""
+def decide_roundtrip(ps, ret, opts, postponed, ff=None):
+    """Returns a list of (key, what).  ff: the future_features given to f (default: ('annotations',)
+    when postponed, none otherwise); postponed must say whether 'annotations' is among them."""
+    if ff is None:
+        ff = ('annotations',) if postponed else ()
+    assert postponed == ('annotations' in ff)
     out = []
     exp = expected_sig(ps, ret)
     body, rtext = split_text(exp)
     o = dict(zip(OPT_NAMES, opts))
     tag = 's(%r%s%s%s)' % (body, '' if rtext is _util.UNSET else ', %r' % rtext,
                            ''.join(', %s=True' % k for k, v in o.items() if v),
-                           ", future_features=('annotations',)" if postponed else '')
-    ff = ('annotations',) if postponed else ()
+                           ', future_features=%r' % (ff,) if ff else '')
     try:
         with warnings.catch_warnings():
             warnings.simplefilter('ignore')
             fn = support.f(body, rtext, future_features=ff, **o)
             got = specifiers.signature(fn)
+            got_s = support.s(body, rtext, future_features=ff, **o) if len(ff) > 1 else got
             got_e = got.evaluated() if postponed else got
     except Exception as e:  # noqa: BLE001
         return [('C20:roundtrip', '%s raised %s: %s (expected the signature %s)' % (tag, type(e).__name__, e, exp))]
@@ -636,6 +875,26 @@ def decide_roundtrip(ps, ret, opts, postponed):
                                     and isinstance(got.upgraded_return_annotation, S._PostponedAnnotation)):
             out.append(('C20:roundtrip', '%s: return annotation is %r, expected the postponed text %r'
                         % (tag, got.return_annotation, str(ret))))
+        # ... and the function made by f carries the texts
+        want_ann = {nname(p[0]): str(p[3]) for p in ps if p[3] is not None}
+        if ret is not None:
+            want_ann['return'] = str(ret)
+        if not out and not any(opts) and dict(fn.__annotations__) != want_ann:
+            out.append(('C20:roundtrip', 'f%s.__annotations__ is %r, expected the postponed texts %r'
+                        % (tag[1:], fn.__annotations__, want_ann)))
+    if not out and not postponed and not any(opts):
+        # eager and native: the annotations are the evaluated objects, whatever other future features are named
+        want_ann = {nname(p[0]): p[3] for p in ps if p[3] is not None}
+        if ret is not None:
+            want_ann['return'] = ret
+        have = dict(fn.__annotations__)
+        if have != want_ann or any(type(have[k]) is not type(want_ann[k]) for k in want_ann):
+            out.append(('C20:roundtrip', 'f%s.__annotations__ is %r, expected the evaluated annotations %r'
+                        % (tag[1:], fn.__annotations__, want_ann)))
+    if got_s is not got and (got_s != got or describe(got_s) != describe(got)
+                             or [type(x[3]) for x in describe(got_s)[0]] != [type(x[3]) for x in describe(got)[0]]
+                             or type(got_s.return_annotation) is not type(got.return_annotation)):
+        out.append(('C20:roundtrip', '%s gave %s but signature(f%s) is %s' % (tag, got_s, tag[1:], got)))
     # (b) really calling it
     ref = real_def(ps)
     for args, kwargs in full_calls(ps):
@@ -653,6 +912,52 @@ def decide_roundtrip(ps, ret, opts, postponed):
                            'returns %r' % (r0[1],) if r0[0] == 'ok' else 'raises TypeError')))
             break
     return out
+
+
+# Postponed evaluation is requested by naming 'annotations' among the future features; the
+# other features named next to it (no-ops on this Python, all with their own compiler flag)
+# and the ORDER in which they are named do not matter: two and three features in every order.
+OTHER_FEATURES = ['generator_stop', 'division', 'unicode_literals', 'absolute_import', 'print_function',
+                  'with_statement', 'nested_scopes', 'generators']
+
+
+def feature_tuples(o1, o2):
+    """every ordered choice of one, two and three of annotations / o1 / o2 (more than 'annotations' alone)"""
+    three = ['annotations', o1, o2]
+    out = [(o1,), (o2,)]
+    for r in (2, 3):
+        out.extend(itertools.permutations(three, r))
+    return out
+
+
+def check_future_features(ctx, rep, metas):
+    rng = ctx.rng('future-features')
+    pool = [m for m in metas if m[1] is not None or any(p[3] is not None for p in m[0])]
+    both = [m for m in pool if m[1] is not None and any(p[3] is not None for p in m[0])]
+    sample = rng.sample(both, min(len(both), 50 if ctx.quick else 300)) + rng.sample(pool, min(len(pool), 50 if ctx.quick else 300))
+    n = 0
+    count = {}
+    for mi, (ps, ret) in enumerate(sample):
+        combos = opt_combos(ps)
+        if mi < 3:
+            pairs = list(itertools.combinations(OTHER_FEATURES, 2))        # every pair of other features
+        else:
+            pairs = [tuple(rng.sample(OTHER_FEATURES, 2))]
+        for o1, o2 in pairs:
+            for ff in feature_tuples(o1, o2):
+                postponed = 'annotations' in ff
+                shape = '%d features, annotations %s' % (len(ff), 'absent' if not postponed else
+                                                         ('first', 'second', 'third')[ff.index('annotations')])
+                for opts in {combos[0], rng.choice(combos)}:
+                    n += 1
+                    count[shape] = count.get(shape, 0) + 1
+                    rep.distinct.add(('rt-ff', tuple(ps), ret, opts, ff))
+                    for key, what in decide_roundtrip(ps, ret, opts, postponed, ff):
+                        rep.violation(key, what, {'kind': 'roundtrip', 'sig': ps, 'ret': ret, 'opts': list(opts),
+                                                  'postponed': postponed, 'future_features': list(ff)})
+    rep.coverage['roundtrip_future_feature_cases'] = n
+    rep.coverage['roundtrip_future_feature_shapes'] = count
+    return n
 
 
 def decide_func_from_sig(ps, ret):
@@ -1398,14 +1703,19 @@ def run(ctx, rep):
                 '(sampled above 5 names) with distinct values; non-trivial = a call with arguments or an error, a round trip '
                 'with an option / annotation / default, every make_up enumeration; every call also with the positional arguments held in a list '
                 'and in one of range / UserList / array / tuple subclass; texts naming objects of the caller\'s globals= namespace '
-                '(modifiers, func, int, support, signature, _util, T0, Marker) in every place, eager and postponed'
+                '(modifiers, func, int, support, signature, _util, T0, Marker) in every place, eager and postponed; '
+                'calls with falsy / equal-but-distinct / container argument values (slots, surplus positionals up to 3 beyond the '
+                'positional slots, keyword values), also run through the model with interned values; '
+                'future_features of one, two and three names in every order (annotations absent / first / second / third)'
                 % ('a sample of U(3,{a,b,c})' if ctx.quick else 'exhaustive U(3,{a,b,c})'))
     n1 = check_binder(ctx, rep, sigs)
+    n1 += check_values(ctx, rep, sigs)
     n2 = check_makeup(ctx, rep, sigs if not ctx.quick else sigs[:260])
     metas = gen_metas(ctx, base)
     if ctx.quick:
         metas = metas[:900]
     n3 = check_roundtrips(ctx, rep, metas)
+    n3 += check_future_features(ctx, rep, metas)
     n4 = check_tokens(ctx, rep, metas)
     for ps, ret in metas:
         if has_po(ps):
@@ -1428,6 +1738,7 @@ def run(ctx, rep):
         'a keyword naming a positional-only parameter alongside **kwargs is excluded from the binder decision (counted in coverage), not from the correspondence',
         'in the model annotation and default texts are integer literals; the real code is also run on texts ending in a parenthesis, unhashable values and classes (no comma, colon or = inside a text); names are identifiers',
         'modifiers.kwoargs spellings are only required for signatures without positional-only parameters',
+        'the future features named next to annotations are the ones that are no-ops on this Python (barry_as_FLUFL, which changes the grammar, is not used); the token-level model does not model compiler flags, that family is decided on the real code only',
         'the positional arguments of a call shape are held in a sequence that can be sliced (bind_callsig slices it); iterators and deques are not explored',
         'when the caller\'s namespace binds the name modifiers only the native spelling is required (the modifiers spellings need that name themselves); a postponed native annotation naming func means the generated function, as for any def',
     ]
@@ -1446,6 +1757,14 @@ def replay(ctx, data):
         return what
     if kind == 'bind-container':
         return decide_bind_container(_ps(r['sig']), r['args'], [tuple(kv) for kv in r['kwargs']], r['container'])
+    if kind == 'bind-values':
+        return decide_bind_values(_ps(r['sig']), r['args'], [tuple(kv) for kv in r['kwargs']])[2]
+    if kind == 'bind-values-container':
+        return decide_bind_container(_ps(r['sig']), [vdecode(c) for c in r['args']],
+                                     [(k, vdecode(c)) for k, c in r['kwargs']], r['container'])
+    if kind == 'sort-values':
+        return decide_sort_container(_ps(r['sig']), [([vdecode(c) for c in a], [(k, vdecode(c)) for k, c in kw])
+                                                     for a, kw in r['calls']], r['container'])
     if kind == 'sort-container':
         return decide_sort_container(_ps(r['sig']), [(a, [tuple(kv) for kv in k]) for a, k in r['calls']], r['container'])
     if kind == 'sort':
@@ -1472,7 +1791,8 @@ def replay(ctx, data):
     if kind == 'makeup':
         return decide_makeup(_ps(r['sig']), r['extra'])[1]
     if kind == 'roundtrip':
-        res = decide_roundtrip(_ps(r['sig']), r['ret'], tuple(r['opts']), r['postponed'])
+        res = decide_roundtrip(_ps(r['sig']), r['ret'], tuple(r['opts']), r['postponed'],
+                               tuple(r['future_features']) if r.get('future_features') is not None else None)
         return res[0][1] if res else None
     if kind == 'func_from_sig':
         return decide_func_from_sig(_ps(r['sig']), r['ret'])
